@@ -232,13 +232,13 @@ class Scanner:
             self.emit(TokenKind.ASSIGN_OP, self.next())
             self.skip_trivia()
 
-        if self.peek() == "&":
-            self.emit(TokenKind.POSITIVE_PREDICATE, self.next())
-            self.skip_trivia()
-        elif self.peek() == "!":
-            while self.peek() == "!":
+        # term = { node_tag? ~ prefix_operator* ~ node ~ postfix_operator* }
+        while self.peek() in ("&", "!"):
+            if self.peek() == "&":
+                self.emit(TokenKind.POSITIVE_PREDICATE, self.next())
+            else:
                 self.emit(TokenKind.NEGATIVE_PREDICATE, self.next())
-                self.skip_trivia()
+            self.skip_trivia()
 
         if self.accept_terminal():
             self.accept_postfix_op()
